@@ -236,25 +236,43 @@ def normalise_tree(tree: ast.AST) -> None:
             return node
     Fold().visit(tree)
 
-    # N6  `for x in xs: if c: continue; REST`  ->  `for x in xs: if not c: REST`   (guard clauses of a loop body)
-    changed = True
-    while changed:
-        changed = False
-        for n in ast.walk(tree):
-            if isinstance(n, (ast.For, ast.AsyncFor)):
-                for i, st in enumerate(n.body):
-                    if isinstance(st, ast.If) and not st.orelse and len(st.body) == 1 and isinstance(st.body[0], ast.Continue):
-                        rest = n.body[i + 1:]
-                        if not rest:
-                            del n.body[i:]
-                            if not n.body:
-                                n.body.append(ast.copy_location(ast.Pass(), st))
-                        else:
-                            test = st.test.operand if isinstance(st.test, ast.UnaryOp) and isinstance(st.test.op, ast.Not) \
-                                else ast.copy_location(ast.UnaryOp(op=ast.Not(), operand=st.test), st.test)
-                            n.body[i:] = [ast.copy_location(ast.If(test=test, body=rest, orelse=[]), st)]
-                        changed = True
-                        break
+    # N6  guard clauses of a loop body, in every tail position of the iteration:
+    #       `if c: continue` + REST        ->  `if not c: REST`
+    #       `if c: S; continue` + REST     ->  `if c: S` `else: REST`
+    def n6_block(blk: List[ast.stmt]) -> bool:
+        """`blk` is in tail position of a loop iteration (nothing of the iteration runs after it)."""
+        did = False
+        i = 0
+        while i < len(blk):
+            st = blk[i]
+            if isinstance(st, ast.If) and not st.orelse and st.body and isinstance(st.body[-1], ast.Continue) and \
+                    not any(isinstance(x, (ast.Continue, ast.Break)) for b_ in st.body[:-1] for x in ast.walk(b_)
+                            if not isinstance(b_, (ast.For, ast.While))):
+                rest = blk[i + 1:]
+                del blk[i + 1:]
+                if len(st.body) == 1:
+                    if rest:
+                        st.test = st.test.operand if isinstance(st.test, ast.UnaryOp) and isinstance(st.test.op, ast.Not) \
+                            else ast.copy_location(ast.UnaryOp(op=ast.Not(), operand=st.test), st.test)
+                        st.body = rest
+                    else:
+                        st.body = [ast.copy_location(ast.Pass(), st)]
+                else:
+                    st.body = st.body[:-1]
+                    st.orelse = rest
+                did = True
+            i += 1
+        if blk and isinstance(blk[-1], ast.If):
+            did = n6_block(blk[-1].body) or did
+            if blk[-1].orelse:
+                did = n6_block(blk[-1].orelse) or did
+        return did
+
+    for n in ast.walk(tree):
+        if isinstance(n, (ast.For, ast.AsyncFor)):
+            for _k in range(6):
+                if not n6_block(n.body):
+                    break
 
     # N4  `CONST == x` / `CONST != x` / `None is x`  ->  `x == CONST` ...   (the constant-like operand on the right)
     def const_like(e) -> bool:
@@ -378,6 +396,7 @@ class Program:
                     if isinstance(stmt, ast.Assign) and len(stmt.targets) == 1 and isinstance(stmt.targets[0], ast.Name):
                         cls.enum_members[stmt.targets[0].id] = stmt.value
         self._inline_expression_helpers()
+        self._inline_void_procedures()
         self._unroll_literal_iterations()
         self._inline_expression_helpers(max_rounds=1)      # helpers that became single expressions by unrolling
         self._normalise_ctor_keywords()
@@ -537,6 +556,159 @@ class Program:
                             for ch in ast.iter_child_nodes(x):
                                 self._parents[id(ch)] = x
                         self.inlined.append((caller.fq, callee.fq))
+            if not changed:
+                break
+
+    # -- N11 --------------------------------------------------------------------------------------------------------------
+    def _inline_void_procedures(self):
+        """N11  a call STATEMENT `helper(args)` / `self.helper(args)` of a procedure of the same module whose body uses `return`
+        only as a guard (`if c: return` at the top level, or as its last statement) is replaced by the body, guards turned
+        into nesting, parameters substituted (side-effect free arguments only), locals renamed apart:
+            def check(cfg, ports):                       check(c, pp)      ->      if c:
+                if not cfg: return                                                       if not any(p.m for p in pp):
+                if any(p.m for p in ports): return                                            raise E(...)
+                raise E(...)
+        "Extract a validation procedure" keeps the shape the rules look for in the caller."""
+        import copy
+        import itertools
+        counter = itertools.count(1)
+
+        def pure(e) -> bool:
+            return all(isinstance(x, (ast.Name, ast.Attribute, ast.Constant, ast.expr_context)) for x in ast.walk(e))
+
+        def body_of(f: FuncInfo) -> Optional[List[ast.stmt]]:
+            if f.is_property or f.is_setter or f.parent is not None or f.nested or (f.node.decorator_list and not f.is_static):
+                return None
+            a = f.node.args
+            if a.vararg or a.kwarg:
+                return None
+            body = [st for st in f.node.body
+                    if not (isinstance(st, ast.Expr) and isinstance(st.value, ast.Constant) and isinstance(st.value.value, str))]
+            if not body or len(body) > 12:
+                return None
+            for x in ast.walk(f.node):
+                if isinstance(x, (ast.Yield, ast.YieldFrom, ast.Lambda, ast.Global, ast.Nonlocal, ast.Await, ast.Try, ast.With)):
+                    return None
+            # returns: bare, and only as `if c: return` at the top level or as the final statement
+            allowed = set()
+            for i, st in enumerate(body):
+                if isinstance(st, ast.If) and not st.orelse and len(st.body) == 1 and isinstance(st.body[0], ast.Return):
+                    allowed.add(id(st.body[0]))
+                if i == len(body) - 1 and isinstance(st, ast.Return):
+                    allowed.add(id(st))
+            for x in ast.walk(f.node):
+                if isinstance(x, ast.Return):
+                    if id(x) not in allowed or not (x.value is None or (isinstance(x.value, ast.Constant) and x.value.value is None)):
+                        return None
+            return body
+
+        def nest(body: List[ast.stmt]) -> List[ast.stmt]:
+            out: List[ast.stmt] = []
+            for i, st in enumerate(body):
+                if isinstance(st, ast.If) and not st.orelse and len(st.body) == 1 and isinstance(st.body[0], ast.Return):
+                    rest = nest(body[i + 1:])
+                    if rest:
+                        test = st.test.operand if isinstance(st.test, ast.UnaryOp) and isinstance(st.test.op, ast.Not) \
+                            else ast.copy_location(ast.UnaryOp(op=ast.Not(), operand=st.test), st.test)
+                        out.append(ast.copy_location(ast.If(test=test, body=rest, orelse=[]), st))
+                    return out
+                if isinstance(st, ast.Return):
+                    return out
+                out.append(st)
+            return out
+
+        # only procedures with a single call site in the package: an extracted step of one function, not a shared validator
+        # (those are analysed as functions with conditions on their arguments)
+        n_sites: Dict[str, int] = {}
+        for mod in self.modules.values():
+            for x in ast.walk(mod.tree):
+                if isinstance(x, ast.Call):
+                    nm = x.func.id if isinstance(x.func, ast.Name) else x.func.attr if isinstance(x.func, ast.Attribute) else None
+                    if nm:
+                        n_sites[nm] = n_sites.get(nm, 0) + 1
+        for _round in range(2):
+            changed = False
+            for caller in list(self.functions.values()):
+                for par in list(ast.walk(caller.node)):
+                    for fld in ('body', 'orelse', 'finalbody'):
+                        blk = getattr(par, fld, None)
+                        if not (isinstance(blk, list) and blk and isinstance(blk[0], ast.stmt)):
+                            continue
+                        for i, st in enumerate(blk):
+                            if not (isinstance(st, ast.Expr) and isinstance(st.value, ast.Call)):
+                                continue
+                            fnm = st.value.func.id if isinstance(st.value.func, ast.Name) else getattr(st.value.func, 'attr', None)
+                            if n_sites.get(fnm, 0) != 1:
+                                continue
+                            call = st.value
+                            callee, recv = None, None
+                            if isinstance(call.func, ast.Name):
+                                sym = self.resolve_name(caller.module, call.func.id)
+                                if isinstance(sym, FuncInfo) and sym.module is caller.module and sym.cls is None and sym is not caller:
+                                    callee = sym
+                            elif isinstance(call.func, ast.Attribute) and isinstance(call.func.value, ast.Name) and \
+                                    call.func.value.id == 'self' and caller.cls is not None and caller.parent is None:
+                                m = self.lookup_method(caller.cls, call.func.attr)
+                                if m is not None and m.module is caller.module and not m.is_static and m is not caller:
+                                    callee, recv = m, call.func.value
+                            if callee is None:
+                                continue
+                            body = body_of(callee)
+                            if body is None or any(isinstance(a_, ast.Starred) for a_ in call.args) or \
+                                    any(k.arg is None for k in call.keywords):
+                                continue
+                            if any(isinstance(x, ast.Call) and self._same_callee(callee, x) for b_ in body for x in ast.walk(b_)):
+                                continue
+                            a = callee.node.args
+                            params = [p_.arg for p_ in list(a.posonlyargs) + list(a.args)]
+                            binding: Dict[str, ast.expr] = {}
+                            if recv is not None and params[:1] == ['self']:
+                                binding['self'] = recv
+                                params = params[1:]
+                            if len(call.args) > len(params):
+                                continue
+                            binding.update(dict(zip(params, call.args)))
+                            ok = True
+                            for k in call.keywords:
+                                if k.arg in binding:
+                                    ok = False
+                                binding[k.arg] = k.value
+                            pos_all = list(a.posonlyargs) + list(a.args)
+                            defaults = dict(zip([x.arg for x in pos_all][len(pos_all) - len(a.defaults):], a.defaults))
+                            for p_ in params + [x.arg for x in a.kwonlyargs]:
+                                if p_ not in binding:
+                                    if p_ in defaults and pure(defaults[p_]):
+                                        binding[p_] = defaults[p_]
+                                    else:
+                                        ok = False
+                            if not ok or not all(pure(v) for v in binding.values()):
+                                continue
+                            # parameters must not be re-assigned in the body
+                            stored = {x.id for b_ in body for x in ast.walk(b_) if isinstance(x, ast.Name) and isinstance(x.ctx, ast.Store)}
+                            if stored & set(binding):
+                                continue
+                            tag = next(counter)
+                            rename = {nm: f'{nm}__p{tag}' for nm in stored}
+
+                            class Sub(ast.NodeTransformer):
+                                def visit_Name(self, node):
+                                    if node.id in rename:
+                                        return ast.copy_location(ast.Name(id=rename[node.id], ctx=node.ctx), node)
+                                    if node.id in binding and isinstance(node.ctx, ast.Load):
+                                        return copy.deepcopy(binding[node.id])
+                                    return node
+                            new = [Sub().visit(copy.deepcopy(b_)) for b_ in nest(body)]
+                            if not new:
+                                new = [ast.Pass()]
+                            for n_ in new:
+                                for x in ast.walk(n_):
+                                    if isinstance(x, (ast.expr, ast.stmt)):
+                                        x.lineno, x.col_offset = getattr(st, 'lineno', 0), getattr(st, 'col_offset', 0)
+                                        x.end_lineno, x.end_col_offset = getattr(st, 'end_lineno', 0), getattr(st, 'end_col_offset', 0)
+                            blk[i:i + 1] = new
+                            self.inlined.append((caller.fq, callee.fq))
+                            changed = True
+                            break
             if not changed:
                 break
 
@@ -1224,6 +1396,21 @@ class TypeEnv:
             bt = strip_opt(self.type_of(e.value))
             return self._attr_type(bt, e.attr)
         if isinstance(e, ast.Call):
+            if isinstance(e.func, ast.Name) and e.func.id == 'getattr' and len(e.args) >= 2 and 'getattr' not in self._assign_sites:
+                # getattr(obj, <name taken from a constant table of the package>): one of the fields so named
+                bt = strip_opt(self.type_of(e.args[0]))
+                cls = prog.classes.get(bt[1]) if bt[0] == 'cls' else None
+                if cls is not None:
+                    names = []
+                    if isinstance(e.args[1], ast.Constant) and isinstance(e.args[1].value, str):
+                        names = [e.args[1].value]
+                    else:
+                        for node, _m in self._table_consts(e.args[1]):
+                            names.extend(c.value for c in ast.walk(node) if isinstance(c, ast.Constant) and isinstance(c.value, str))
+                    ts = [prog.field_type(cls, nm) for nm in names]
+                    ts = [t for t in ts if t is not None]
+                    if ts:
+                        return union(ts)
             return self._call_type(e)
         if isinstance(e, (ast.List, ast.ListComp)):
             if isinstance(e, ast.List):
@@ -1395,7 +1582,97 @@ class TypeEnv:
     # -- call resolution -------------------------------------------------------------------
     def resolve_call(self, e: ast.Call) -> List[Any]:
         """Callees of a call expression: list of FuncInfo (package functions/methods; constructor ->
-        __init__/__post_init__) plus ('ext', name) / ('builtin', name) markers."""
+        __init__/__post_init__) plus ('ext', name) / ('builtin', name) markers.  A callee that is taken out of a constant
+        dispatch table of the package (`TABLE[key](...)`, `parser, kind = TABLE[key]; parser(...)`,
+        `getattr(self, NAMES[key])(...)`, `route.parse(...)`) resolves to every function the table holds."""
+        out = self._resolve_call_direct(e)
+        if out and all(isinstance(c, tuple) and c[0] == 'unknown' for c in out):
+            via = self._table_callees(e)
+            if via:
+                return via
+        return out
+
+    def _table_consts(self, x: ast.AST) -> List[Tuple[ast.AST, Module]]:
+        """Module-level constant displays (dict / tuple / list / constructor call) of the package that the value of `x` may
+        have been taken out of: followed through locals, tuple unpacking and calls of helper functions of this module."""
+        prog = self.prog
+        consts: List[Tuple[ast.AST, Module]] = []
+        seen: Set[str] = set()
+        seen_fn: Set[str] = set()
+
+        def add(sym):
+            if isinstance(sym, tuple) and sym[0] == 'const' and isinstance(sym[1], (ast.Dict, ast.Tuple, ast.List, ast.Call)):
+                if not any(c is sym[1] for c, _m in consts):
+                    consts.append((sym[1], sym[2]))
+
+        def scan(x: ast.AST, env: 'TypeEnv', depth: int = 0):
+            if depth > 6:
+                return
+            for n in ast.walk(x):
+                if isinstance(n, ast.Name) and isinstance(n.ctx, ast.Load):
+                    key = f'{env.fn.fq}:{n.id}'
+                    if n.id in env._assign_sites and key not in seen:
+                        seen.add(key)
+                        for site in env._assign_sites[n.id]:
+                            v = site
+                            while isinstance(v, tuple) and v and v[0] == 'item':
+                                v = v[1]
+                            if isinstance(v, tuple) and len(v) > 1 and isinstance(v[1], ast.AST):
+                                scan(v[1], env, depth + 1)
+                    elif n.id not in env.vars and n.id not in env._assign_sites:
+                        add(prog.resolve_name(env.mod, n.id))
+                elif isinstance(n, ast.Attribute) and isinstance(n.ctx, ast.Load):
+                    add(prog.resolve_expr_symbol(env.mod, n))
+                if isinstance(n, ast.Call) and isinstance(n.func, (ast.Name, ast.Attribute)):
+                    sym = prog.resolve_expr_symbol(env.mod, n.func)
+                    if isinstance(sym, FuncInfo) and sym.fq not in seen_fn and sym.module.name.startswith(PKG):
+                        seen_fn.add(sym.fq)
+                        env2 = TypeEnv(prog, sym)
+                        for r in iter_own_nodes(sym.node):
+                            if isinstance(r, ast.Return) and r.value is not None:
+                                scan(r.value, env2, depth + 1)
+
+        scan(x, self)
+        return consts
+
+    def _table_callees(self, e: ast.Call) -> List[Any]:
+        prog = self.prog
+        f = e.func
+        by_name_on = None          # getattr(obj, <name from a table>)(...)
+        if isinstance(f, ast.Call) and isinstance(f.func, ast.Name) and f.func.id == 'getattr' and len(f.args) >= 2:
+            by_name_on = f.args[0]
+            consts = self._table_consts(f.args[1])
+        else:
+            consts = self._table_consts(f)
+        if not consts:
+            return []
+        out: List[Any] = []
+        for node, mod in consts:
+            if by_name_on is not None:
+                bt = strip_opt(self.type_of(by_name_on))
+                cls = prog.classes.get(bt[1]) if bt[0] == 'cls' else None
+                if cls is None:
+                    return []
+                for c in ast.walk(node):
+                    if isinstance(c, ast.Constant) and isinstance(c.value, str):
+                        m = prog.lookup_method(cls, c.value)
+                        if m is not None and m not in out:
+                            out.append(m)
+            else:
+                for c in ast.walk(node):
+                    if isinstance(c, (ast.Name, ast.Attribute)) and isinstance(getattr(c, 'ctx', None), ast.Load):
+                        par_is_call = False
+                        sym = prog.resolve_expr_symbol(mod, c)
+                        if isinstance(sym, FuncInfo) and sym not in out:
+                            # a reference, not the callee of a call inside the display
+                            for q in ast.walk(node):
+                                if isinstance(q, ast.Call) and q.func is c:
+                                    par_is_call = True
+                            if not par_is_call:
+                                out.append(sym)
+        return out
+
+    def _resolve_call_direct(self, e: ast.Call) -> List[Any]:
         prog = self.prog
         f = e.func
         out: List[Any] = []
@@ -1444,6 +1721,9 @@ class TypeEnv:
             if bt[0] == 'extobj':
                 # a method of an object made by the standard library (compiled pattern, hash object, lock ...)
                 return [('ext', f'{bt[1]}().{f.attr}')]
+            if bt[0] == 'union' and bt[1] and all(strip_opt(t)[0] in ('list', 'dict', 'set', 'tuple', 'str') for t in bt[1]) and \
+                    f.attr in BUILTIN_METHOD_NAMES:
+                return [('builtin', f'{strip_opt(bt[1][0])[0]}.{f.attr}')]
             if bt[0] == 'union':
                 for t in bt[1]:
                     t = strip_opt(t)
